@@ -292,7 +292,7 @@ func init() {
 		registerExtras(a.Reg)
 		reg := currentReg()
 		t := NewTracer(a.Out)
-		cc := Conc{a.Rand()}
+		cc := Conc{r: a.Rand()}
 		b := 0
 		bysrc := map[string]int{}
 		stride := 9
